@@ -4,8 +4,9 @@
 The model mirrors the NumPy-backend execution of
 
 * `cg` (default `x0`, default preconditioner `I_like(A)` — the identity returns its operand),
-* `run_batched_cg` (per-column `mult = ‖b‖`, `do_safe_div(b, mult)`, `do_safe_div(x0, mult)`,
-  `initialize`, effective tolerance `tol * ‖r0‖ + tol` per column, the loop, rescaling by `mult`),
+* `run_batched_cg` (per-column `mult = ‖b‖`, `scale = where(mult == 0, 1, mult)`, `b / scale`,
+  `x0 / scale`, `initialize`, effective tolerance `tol * ‖r0‖ + tol` per column, the loop,
+  rescaling by `mult`),
 * `cond_fun` (`any` column above its tolerance `&` `k < max_iters`),
 * `take_cg_step` / `update_alpha` / `update_gamma_beta` (the `has_converged` mask with
   `eps = 1e-40` that sets alpha and beta to 0, the guarded divisions),
@@ -42,6 +43,9 @@ class NumOps (K : Type) where
   small : K
   /-- `n ↦ n` as a scalar (the count in `mean`) -/
   ofNat : Nat → K
+  one : K
+  /-- `· == 0` -/
+  isZero : K → Bool
 
 open NumOps
 
@@ -77,8 +81,11 @@ def applyP : Option (Mat K) → Vec K → Vec K
 def safeDiv (num den : K) : K :=
   div num (if lt (abs den) small then small else den)
 
-/-- `do_safe_div(v, m)` with `m` the column's entry of a `1 × m` row -/
-def vsafeDiv (v : Vec K) (m : K) : Vec K := v.map (fun t => safeDiv t m)
+/-- `v / s` with `s` the column's entry of a `1 × m` row -/
+def vdiv (v : Vec K) (s : K) : Vec K := v.map (fun t => div t s)
+
+/-- `where(mult == 0, 1, mult)`, one entry -/
+def scaleOf (m : K) : K := if isZero m then one else m
 
 end ops
 
@@ -172,9 +179,9 @@ def mults (b : Array (Vec K)) : Array K := b.map norm
 
 /-- initial state of `run_batched_cg` -/
 def initState (A : Mat K) (P : Option (Mat K)) (b x0 : Array (Vec K)) : State K :=
-  let mult := mults b
-  let bn := Array.zipWith vsafeDiv b mult
-  let x0n := Array.zipWith vsafeDiv x0 mult
+  let scale := (mults b).map scaleOf
+  let bn := Array.zipWith vdiv b scale
+  let x0n := Array.zipWith vdiv x0 scale
   { cols := Array.zipWith (initCol A P) bn x0n, k := 0 }
 
 /-- `tol * norm(r0) + tol`, per column -/
@@ -233,6 +240,8 @@ instance : NumOps Float where
   lt a b := decide (a < b)
   small := smallF
   ofNat n := n.toFloat
+  one := 1.0
+  isZero a := a == 0.0
 
 /-- complex128 -/
 structure CFloat where
@@ -278,5 +287,7 @@ instance : NumOps CFloat where
   lt a b := decide (a.re < b.re)
   small := ⟨smallF, 0.0⟩
   ofNat n := ⟨n.toFloat, 0.0⟩
+  one := ⟨1.0, 0.0⟩
+  isZero a := a.re == 0.0 && a.im == 0.0
 
 end CG
